@@ -103,6 +103,9 @@ class C06(Check):
             else:
                 bits = format(w.getrandbits(n), f"0{n}b")
             op = w.choice(["check", "check", "correct"]) if CODES[c][5] else "check"
+            if w.random() < 0.05:
+                # a failing call by a sloppy co-caller (wrong length: raises); whatever it leaves behind must not matter
+                ops.append([c, "bad", format(w.getrandbits(n + 3), f"0{n + 3}b")[: w.choice([n - 1, n + 1, k + 1, 0])]])
             if w.random() < 0.15:
                 # the transmitter keeps using what generate() returned: the channel corrupts that very array in place
                 op, bits = "generate!", format(w.getrandbits(k), f"0{k}b") + ":" + str(w.randrange(n))
@@ -160,6 +163,14 @@ class C06(Check):
                 little = bits.startswith("le:")
                 if little:
                     bits = bits[3:]
+                if op == "bad":
+                    for f in (cls.check, cls.generate) + ((cls.check_and_correct,) if ham else ()):
+                        try:
+                            f(bitarray(bits))
+                        except Exception:
+                            pass
+                    res.fault("failing_call")
+                    continue
                 if op == "generate!":
                     m, _, pos = bits.partition(":")
                     arr = cls.generate(bitarray(m))
